@@ -32,7 +32,9 @@ func (pass *DisjunctionInferMapping) processDisjunction(visitor *Visitor, schema
 		return ast.Type{}, err
 	}
 
-	if len(def.Disjunction.Branches) == 0 || !def.Disjunction.Branches.HasOnlyRefs() {
+	// `null` is not a branch to discriminate: `Cat | Dog | null` is a (nullable) union of references
+	nonNullBranches := def.Disjunction.Branches.NonNullTypes()
+	if len(nonNullBranches) == 0 || !nonNullBranches.HasOnlyRefs() {
 		return def, nil
 	}
 
@@ -87,7 +89,7 @@ func (pass *DisjunctionInferMapping) inferDiscriminatorField(schema *ast.Schema,
 	candidates := make(map[string]map[string]any)
 
 	// Identify candidates from each branch
-	for _, branch := range def.Branches {
+	for _, branch := range def.Branches.NonNullTypes() {
 		referredType, found := schema.Resolve(branch)
 		if !found {
 			continue
@@ -118,7 +120,11 @@ func (pass *DisjunctionInferMapping) inferDiscriminatorField(schema *ast.Schema,
 	// At this point, if a discriminator exists, it will be listed under the candidates
 	// of any type in our map.
 	// We need to check if all other types have a similar field.
-	someType := def.Branches[0].AsRef().ReferredType
+	nonNullBranches := def.Branches.NonNullTypes()
+	if len(nonNullBranches) == 0 || !nonNullBranches[0].IsRef() {
+		return "", false
+	}
+	someType := nonNullBranches[0].AsRef().ReferredType
 	allTypes := make([]string, 0, len(candidates))
 
 	for typeName := range candidates {
@@ -163,7 +169,7 @@ func (pass *DisjunctionInferMapping) buildDiscriminatorMapping(schema *ast.Schem
 		return nil, fmt.Errorf("could not identify discriminator field")
 	}
 
-	for _, branch := range def.Branches {
+	for _, branch := range def.Branches.NonNullTypes() {
 		referredType, found := schema.Resolve(branch)
 		if !found {
 			return nil, fmt.Errorf("could not resolve reference '%s'", branch.AsRef().String())
